@@ -29,6 +29,11 @@ claimed = {
    note="The claim 'for every population, stack, query, sort, limit and page' is NOT proved; only the shadowing filter is. The stand-in's bound is stated in the evidence (assumptions_or_bounds) and leaves out THEN sequences, sub-queries, variables, tags, converters and grouping. Assumed for the proved part: superseding readers and the stream are non-nil (call sites pass readers of the stack).",
    tech="contract-based deductive verification for the shadowing filter (own VC generator over go/ssa + z3/cvc5); bounded differential stand-in for the pipeline",
    ref="DESIGN.md section 4 (C02)"),
+ "C11": dict(
+   text="Deductive proof that the handlers the service goroutine runs for tag management keep the tag graph well-formed, for every state of the tag table (a map of names to tag objects on a symbolic heap: one SMT array per field, indexed by object reference): AddTag's handler, DelTag's handler and two regions of UpdateTag's handler (installing a new definition; renaming) each establish wfE (every entry is a tag object with a reference set, no tag names itself, every referenced name exists, different names are different objects) and mirror (n is in r's referencedBy set exactly when tag n exists and its definition names r) from wfE and mirror, with loop invariants for the existence check, the old/new reference difference sets and the range-over-map loops (ghost set of visited keys). DelTag rejects a referenced tag before anything is touched (ghost call log). Safety: no nil dereference or nil-map write in these handlers. BOUNDED (stand-in, not counted as proved): the API as a whole through a real Manager - validation outside the handlers, acyclicity (the cycle check itself is trusted in the proof), atomicity of rejected calls, mark updates, never hanging - is run on seeded call sequences against a plain model.",
+   note="Assumed (listed in the evidence): referencedTags returns exactly the distinct names its receiver's definition references; event, saveState, makeTagInfo, startTaggingJobIfNeeded, detachConverterFromTag, tagReferencesTransitively do not touch the tag table or the referencedBy sets (trusted contracts, bodies not verified); a tag object's features are never written after creation; the new tag object passed to a handler is not yet in the table; region assumptions of the UpdateTag regions (graph well-formed where the region starts - established by the other handlers); single-goroutine confinement of the manager state. Converter attach/detach, mark updates and the uncertainty walk are not under contract.",
+   tech="contract-based deductive verification: handler-preserves-invariant contracts over a symbolic heap (own VC generator over go/ssa + z3/cvc5); bounded model-based stand-in for the API",
+   ref="DESIGN.md section 4 (C11)"),
  "C10": dict(
    text="Deductive proof of the sequential kernel of a view: (1) the per-stream callback of View.AllStreams invokes the handler for a stored version exactly when no newer index file of the view contains that stream id (loop invariant + ghost log of handler calls), so every visible id is enumerated once, in its newest version; (2) View.Stream returns the version from the newest index containing the id, or nothing if none contains it; (3) replacing a merged run keeps every index before and after the run in order (including files appended while the merge ran); (4) lock/release change nothing but the reference-count table. Completeness with respect to 'reported processed', stability of a view while other jobs run and the hand-off of references across goroutines are not function-contract properties and are not decided.",
    note="Assumed: the index package's readers (StreamIDs, StreamByID, Stream.ID) relate to the abstract predicate contains(index, id) as stated in their assumed contracts; single-goroutine confinement of manager state (C20's subject); Close/Remove do not touch manager state; run-time checks in View.Stream and the merge completion closure are assumed to pass (nosafety).",
